@@ -75,6 +75,9 @@ type fqPlan struct {
 	// Traffic: successful queue-modifying API calls (ScheduleJob of unrelated far-future jobs, one every 10 ms) arrive DURING the
 	// burst; each is an interrupt. The failing loop-side call must still be retried no faster than once per RetryInterval.
 	Traffic bool `json:"traffic,omitempty"`
+	// Size2Fails (kind empty-pop): the Size() call the scheduler makes right after an empty Pop, inside fetchAndReschedule, fails
+	// (two faults at one point); the Size() at the top of the loop answers truthfully.
+	Size2Fails bool `json:"size2_fails,omitempty"`
 }
 
 // windowed: the faults of this plan are active during one time window that starts once the jobs are running
@@ -108,6 +111,9 @@ func (p fqPlan) String() string {
 	case "spurious-empty":
 		return fmt.Sprintf("plan %d: for %v Size() reports %d while Head() and Pop() return an error wrapping ErrQueueEmpty", p.ID, p.win(), p.sizeReported())
 	case "empty-pop":
+		if p.Size2Fails {
+			return fmt.Sprintf("plan %d: for %v Size() at the top of the loop and Head() answer truthfully (jobs are stored and due), Pop() returns an error wrapping ErrQueueEmpty and the Size() asked right after it fails", p.ID, p.win())
+		}
 		return fmt.Sprintf("plan %d: for %v Size() and Head() answer truthfully (jobs are stored and due) while Pop() returns an error wrapping ErrQueueEmpty", p.ID, p.win())
 	}
 	return fmt.Sprintf("plan %d: random faults seed %d (fail %.2f, delay %.2f, ops %s, side %s)", p.ID, p.Seed, p.PFail, p.PDelay, strings.Join(p.Ops, "/"), p.Side)
@@ -133,6 +139,22 @@ type fqQueue struct {
 	apiActive   atomic.Bool
 	apiInjected atomic.Int32
 	loopEmpty   atomic.Bool // the loop-side call in progress answers "size but no head"
+}
+
+// fqInFetch: the queue call in progress is made by fetchAndReschedule (the Size() that follows an empty Pop)
+func fqInFetch() bool {
+	pcs := make([]uintptr, 24)
+	n := runtime.Callers(3, pcs)
+	frames := runtime.CallersFrames(pcs[:n])
+	for {
+		f, more := frames.Next()
+		if strings.Contains(f.Function, "fetchAndReschedule") {
+			return true
+		}
+		if !more {
+			return false
+		}
+	}
 }
 
 func fqLoopSide() (loop, known bool) {
@@ -192,6 +214,9 @@ func (q *fqQueue) before(op string) bool {
 		case "empty-pop":
 			if op == "pop" && !q.t0.IsZero() && time.Since(q.t0) < q.plan.win() {
 				fault = "empty"
+			}
+			if q.plan.Size2Fails && op == "size" && !q.t0.IsZero() && time.Since(q.t0) < q.plan.win() && fqInFetch() {
+				fault = "fail"
 			}
 		case "random":
 			if inOps && sideOK {
@@ -719,6 +744,8 @@ func faultsRun(args []string) int {
 	for _, w := range []int{0, 30, 60, 90} {
 		add(fqPlan{Kind: "empty-pop", Mode: "empty", WinMs: w})
 	}
+	add(fqPlan{Kind: "empty-pop", Mode: "empty", Size2Fails: true})
+	add(fqPlan{Kind: "empty-pop", Mode: "empty", Size2Fails: true, WinMs: 60})
 	opsets := [][]string{nil, {"pop", "push"}, {"size", "head"}, {"push", "remove", "get"}, {"pop"}, {"push"}, {"get", "remove", "clear", "list"}}
 	for k := 0; k < *n/2; k++ {
 		add(fqPlan{Kind: "random", Mode: "mixed", Seed: r.Int63n(1 << 40), PFail: []float64{0.05, 0.2, 0.5, 0.9}[r.Intn(4)], PDelay: []float64{0, 0.05, 0.2}[r.Intn(3)],
